@@ -3,6 +3,7 @@
 tier="${1:-quick}"; shift 2>/dev/null
 ids="$*"
 [ -z "$ids" ] && ids=$(python3 -c "import json;print(' '.join(c['property_id'] for c in json.load(open('MANIFEST.json'))['checks']))")
+mkdir -p out
 for id in $ids; do
   ./check "$id" --tier "$tier" > "out/last-$id.log" 2>&1
   rc=$?
